@@ -209,24 +209,25 @@ inductive Op where
 deriving Repr
 
 inductive Obs where
-  | unit
+  | grown
+  | cached
   | stored (n r2 rL : Nat)
   | signed2 (m : RMap Item)       -- `[]`: the builder fails (empty tree has no root)
   | signedL (m : RMap Nat)
-  | proved2 (o : Out2) (m : RMap Item)
-  | provedL (o : OutL) (m : RMap Nat)
+  | proved2 (req : List Nat) (o : Out2) (m : RMap Item)
+  | provedL (req : List Nat) (o : OutL) (m : RMap Nat)
 deriving Repr
 
 def step (s : St) : Op → St × Obs
-  | .grow bs => ({ s with chain := s.chain ++ bs }, .unit)
+  | .grow bs => ({ s with chain := s.chain ++ bs }, .grown)
   | .imp n => let s' := importTo s n; (s', .stored s'.blocks.length s'.roots2.length s'.rootsL.length)
   | .sign2 U => let s' := importTo s U; (s', .signed2 (mapAt2 nodes2 s'.blocks s'.roots2 U))
   | .signL U => let s' := importTo s U; (s', .signedL (mapAtL s'.rootsL U))
-  | .cache2 U => ({ s with cache2 := some (mapAt2 nodes2 s.blocks s.roots2 U) }, .unit)
-  | .cacheL U => ({ s with cacheL := some (mapAtL s.rootsL U) }, .unit)
-  | .ptx U req => (s, .proved2 (prove2 true s.blocks s.cache2 U req) (s.cache2.getD []))
-  | .pblk U req => (s, .proved2 (prove2 false s.blocks s.cache2 U req) (s.cache2.getD []))
-  | .pl U req => (s, .provedL (proveL s.blocks s.cacheL U req) (s.cacheL.getD []))
+  | .cache2 U => ({ s with cache2 := some (mapAt2 nodes2 s.blocks s.roots2 U) }, .cached)
+  | .cacheL U => ({ s with cacheL := some (mapAtL s.rootsL U) }, .cached)
+  | .ptx U req => (s, .proved2 req (prove2 true s.blocks s.cache2 U req) (s.cache2.getD []))
+  | .pblk U req => (s, .proved2 req (prove2 false s.blocks s.cache2 U req) (s.cache2.getD []))
+  | .pl U req => (s, .provedL req (proveL s.blocks s.cacheL U req) (s.cacheL.getD []))
 
 def run : St → List Op → St × List Obs
   | s, [] => (s, [])
